@@ -33,7 +33,9 @@ func c17Has(list []*tar.Header, name string) int {
 // member is listed under its directory exactly once, path spellings are interchangeable, and an entry added
 // through the filesystem afterwards coexists with the members and survives a rebuild.
 func Harness_C17_foreign_archive() {
-	v := verifNewFS(config.PipeConfig{}, false, true)
+	// small record sizes put members at every block offset of a record, also the last one
+	rs := []int{20, 2, 3}[vm.Choice("recordSize", 3)]
+	v := verifNewFS(config.PipeConfig{RecordSize: rs}, false, true)
 	t := v.Env.Tape
 	style := vm.Choice("style", 3)
 	slash := ""
@@ -61,15 +63,17 @@ func Harness_C17_foreign_archive() {
 		var data []byte
 		if size > 0 {
 			data = make([]byte, size)
+			for i := range data {
+				data[i] = byte('a' + len(t.Segs)) // every member has its own content
+			}
 		}
 		t.AddMember(&tar.Header{Typeflag: tf, Name: name, Size: size, Mode: 0o644, Format: tar.FormatUSTAR}, 1, size, data)
 	}
 	add(top, true, 0)
 	add(prefix+d+slash, true, 0)
 	add(prefix+d+"/"+f, false, 3)
-	add(prefix+g, false, 0)
+	add(prefix+g, false, 2)
 	t.AddTrailer()
-	vm.Known("C17-absolute-root-style", style == 1)
 
 	root, err := v.FS.Initialize("/", os.ModePerm)
 	vm.Assert("C17.initialize_ok", err == nil)
@@ -108,6 +112,21 @@ func Harness_C17_foreign_archive() {
 	for i, sp := range dirSpellings {
 		fi, e := v.FS.Stat(sp)
 		vm.Assert("C17.dir_spelling_resolves."+string(rune('0'+i)), e == nil && fi != nil && fi.IsDir())
+	}
+
+	// every regular member reads back byte-identical (so its indexed position is the right one)
+	for i, rb := range []struct {
+		name string
+		want string
+	}{{prefix + d + "/" + f, "ccc"}, {prefix + g, "dd"}} {
+		rh, oe := v.FS.Open(rb.name)
+		vm.Assert("C17.member_opens."+string(rune('0'+i)), oe == nil)
+		if oe == nil {
+			buf := make([]byte, 4)
+			n, _ := rh.Read(buf)
+			vm.Assert("C17.member_reads_back."+string(rune('0'+i)), n == len(rb.want) && string(buf[:n]) == rb.want)
+			rh.Close()
+		}
 	}
 
 	// coexistence: add a file through the filesystem next to the foreign members
